@@ -18,7 +18,8 @@ env = dict(os.environ, VERIF_REPO=wt, VERIF_EVID=scratch + "/evidence")
 bad = 0
 try:
     for i in ids:
-        prop = i.split("-")[0]
+        # (two changes filed under C02 break the positional contract of SendBatch results, which is property C07: see DESIGN.md 0A.6)
+        prop = {"C02-e": "C07", "C02-g": "C07"}.get(i, i.split("-")[0])
         pf = "%s/seeded/%s/patch.diff" % (V, i)
         r = subprocess.run("git -C %s apply %s" % (wt, pf), shell=True, stdout=subprocess.PIPE, stderr=subprocess.STDOUT, text=True)
         if r.returncode != 0:
